@@ -357,6 +357,11 @@ def body(led):
     from . import c16_py
     for m_ in ('iso_clpt_donnell_bc2', 'iso_clpt_donnell_bc3'):
         c16_py.check_one(led, m_, False, None, False)
+    # premise: the tangent handed back by calc_kT is the kuu block cut out by ConeCyl.exclude_dofs_matrix (replaced by its contract in
+    # c17_py): that contract -- kuu == K[free, free] for every admissible set of prescribed amplitudes -- is proved / run here as well
+    from . import c18_partition
+    c18_partition.check_exclude_proof(led)
+    c18_partition.check_exclude(led)
     ok, _ = K.compare(real('WX') * real('WX'), real('WX') * real('WX') * 0.5)
     led.canary('WX^2 == WX^2/2', not ok)
 
